@@ -50,7 +50,7 @@ theorem need_val : ∀ (v : TVal) (o : Opts), v.WF → needVal v ≤ (render (wr
       simp only [hml, if_true, render_cons_length, render_append_length, Piece.render, render,
         List.length_cons, List.length_nil, List.length_append]
       omega
-    · have := need_elemsSL vs o 0 hvs
+    · have := need_elemsSL vs o 0 false hvs
       simp only [(by simpa using hml : o.multiline = false), Bool.false_eq_true, if_false, render_cons_length, render_append_length, Piece.render, render,
         List.length_cons, List.length_nil, List.length_append]
       omega
@@ -66,16 +66,21 @@ theorem need_val : ∀ (v : TVal) (o : Opts), v.WF → needVal v ≤ (render (wr
         List.length_cons, List.length_nil, List.length_append]
       omega
 
-theorem need_elemsSL : ∀ (vs : TVals) (o : Opts) (i : Nat), vs.WF →
-    needElems vs ≤ (render (writeElemsSL o i vs)).length + 1
-  | .nil, o, i, _ => by simp [needElems, writeElemsSL, render]
-  | .cons v vs, o, i, hvs => by
+theorem need_elemsSL : ∀ (vs : TVals) (o : Opts) (i : Nat) (skipped : Bool), vs.WF →
+    needElems vs ≤ (render (writeElemsSL o i skipped vs)).length + 1
+  | .nil, o, i, skipped, _ => by simp [needElems, writeElemsSL, render]
+  | .cons v vs, o, i, skipped, hvs => by
     obtain ⟨hv, hvs'⟩ : v.WF ∧ vs.WF := hvs
     have h1 := need_val v o.plusOne hv
-    have h2 := need_elemsSL vs o (i + 1) hvs'
+    have h2 := need_elemsSL vs o (i + 1) false hvs'
     rw [writeElemsSL, needElems]
     simp only [render_cons_length, render_append_length, Piece.render, List.length_cons,
       List.length_nil]
+    omega
+  | .skip vs, o, i, skipped, hvs => by
+    have h2 := need_elemsSL vs o (i + 1) true (show vs.WF from hvs)
+    rw [writeElemsSL, needElems]
+    simp only [render_append_length]
     omega
 
 theorem need_elemsML : ∀ (vs : TVals) (o : Opts) (i : Nat), vs.WF →
@@ -87,6 +92,11 @@ theorem need_elemsML : ∀ (vs : TVals) (o : Opts) (i : Nat), vs.WF →
     have h2 := need_elemsML vs o (i + 1) hvs'
     rw [writeElemsML, needElems]
     simp only [render_cons_length, render_append_length, Piece.render, List.length_cons]
+    omega
+  | .skip vs, o, i, hvs => by
+    have h2 := need_elemsML vs o (i + 1) (show vs.WF from hvs)
+    rw [writeElemsML, needElems]
+    simp only [render_append_length]
     omega
 
 theorem need_fields : ∀ (fs : TFields) (o : Opts) (wrote : Bool), fs.WF →
@@ -101,6 +111,12 @@ theorem need_fields : ∀ (fs : TFields) (o : Opts) (wrote : Bool), fs.WF →
     omega
   | .cons name true v fs, o, wrote, hfs => by
     obtain ⟨_, _, _, hfs'⟩ : ValidWord name ∧ _ ∧ v.WF ∧ fs.WF := hfs
+    have h2 := need_fields fs o wrote hfs'
+    rw [writeFields, needFields]
+    simp only [render_append_length]
+    omega
+  | .skip name fs, o, wrote, hfs => by
+    obtain ⟨_, hfs'⟩ : ValidWord name ∧ fs.WF := hfs
     have h2 := need_fields fs o wrote hfs'
     rw [writeFields, needFields]
     simp only [render_append_length]
